@@ -201,3 +201,41 @@ Definition mk_steps {T} {NT : Num T} (l : list (rawstep T)) : list lstep :=
 Definition c03_run_raw {T} {NT : Num T} (m : mdp T) (o : laoout) (Vstar : list T) (r : T)
            (h : list T) (l : list (rawstep T)) : list bool :=
   c03_run m o Vstar r (untab h) (mk_steps l).
+
+(* ------------------------------------------------------------------ *)
+(* 3. mirror of ExplicitStateGraph.update_ancestors_of (laostar.py:248-268): depth-first
+      collection, from the expanded node, of "valid parents" = parents whose CURRENT optimal
+      action lists the child.  [pord n] is n.parent_states in the order Python's set iteration
+      yields it (unspecified: theory/LAOStarTheory.v ancestors_order_indep shows the resulting
+      SET does not depend on it); [vp p n] = n in p.action_nextstates[p.optimal_action].
+      The frontier is a stack (list.pop() takes the last appended element); a node may sit in
+      the frontier several times, exactly as in the Python loop.  None = fuel exhausted. *)
+(* ------------------------------------------------------------------ *)
+Section Ancestors.
+Variable pord : nat -> list nat.
+Variable vp : nat -> nat -> bool.
+
+Definition memn (x : nat) (l : list nat) : bool := existsb (Nat.eqb x) l.
+
+Fixpoint anc_loop (fuel : nat) (fr A : list nat) : option (list nat) :=
+  match fr with
+  | [] => Some A
+  | n :: fr' =>
+    match fuel with
+    | O => None
+    | S f =>
+      let A' := if memn n A then A else n :: A in
+      let new := filter (fun p => negb (memn p A') && vp p n) (pord n) in
+      anc_loop f (rev new ++ fr') A'
+    end
+  end.
+
+Definition ancestors_of (fuel x : nat) : option (list nat) := anc_loop fuel [x] [].
+End Ancestors.
+
+(* harness entry: parents / listed best-action successors as lists; compares with the recorded Z *)
+Definition anc_chk (nS : nat) (plist succ : list (list nat)) (x : nat) (Z : list bool) : bool :=
+  match ancestors_of (fun n => nth n plist []) (fun p n => memn n (nth p succ [])) (nS * nS + 1) x with
+  | Some A => forallb (fun s => beqb (memn s A) (nthb Z s)) (seq 0 nS)
+  | None => false
+  end.
